@@ -18,6 +18,22 @@ PROPERTIES = {
         "level_note": "Assumed: the ghost terminal model as TermLike's contract, format_state's output (Bar lines, size bounds) as a stubbed callee verified in its own unit, one-column cells. Known finding C01-first-line-advance (zero-width first line painted from the pending-wrap column) is excluded from the content clause and listed. ProgressBar::suspend's closure is not modelled; cursor-moving mode (set_move_cursor) is covered by the frame clause only.",
         "assumptions": ["R2 sequential; R10 one model terminal"],
     },
+    "C02": {
+        "units": ["multi_state", "draw_to_term"],
+        "level": "proof",
+        "explanation": "MultiState::{insert, remove_idx, len} verified against the documented list operations (End / Index / IndexFromBack / Before / After; removal keeps the order of the others and touches no other member) under the slot invariant (ordering and free_set duplicate-free, disjoint, covering all slots; the runtime consistency assertion is proved never to fire); MultiState::draw verified to hand draw_to_term exactly [printed lines ++ pending member texts ++ every member's stored rendering once, in visual order] and to reap exactly the maximal prefix of dropped bars after painting them once more; draw_to_term's content clause puts that frame directly below the untouched rows above.",
+        "level_text": "Deductive proof (Verus) for every history of insert/remove (the contracts are per operation over the whole order view, with frames) and every member count; loops by inductive invariants.",
+        "level_note": "NOT decided (schedules): the clause about frames painted while several threads update bars concurrently -- the argument is the single RwLock write guard, which the sequential model (R2) erases; only the sequential half (a frame is composed from the stored draw states, each written by that bar's own last draw) is proved. Assumed: ghost terminal, R5 helpers for position/retain/contains, size bounds (fewer than 2^28 rows).",
+        "assumptions": ["R2 sequential semantics"],
+    },
+    "C03": {
+        "units": ["multi_state", "draw_to_term", "bar_draw"],
+        "level": "proof",
+        "explanation": "draw_to_term never touches a cell above the top of the rows it is told to clear (frame clause, all three loops); DrawStateWrapper's drop moves Text/Empty lines of a member to the MultiProgress's pending lines in order and keeps the bars; BarState::println hands [texts ++ rendering] to one forced draw; a skipped single-bar draw changes neither terminal nor row count. For MultiState::draw the row accounting (rows to clear vs. rows of reaped zombies) is stated as three count-level clauses, each of which FAILS on the pinned tree and is listed as a known finding with a replayed witness history.",
+        "level_text": "Deductive proof (Verus) of the frame / ordering clauses for all inputs; the three failing accounting clauses are reported as KNOWN-FINDING with their real-code witnesses, any other failing obligation is a violation.",
+        "level_note": "Assumed: ghost terminal, sequential semantics. MultiState::{println, clear, suspend, mark_zombie} are covered at the level of their draw calls. The closure passed to suspend is not modelled.",
+        "assumptions": ["R2 sequential semantics"],
+    },
     "C04": {
         "units": ["bar_draw", "c07_position"],
         "level": "proof",
@@ -158,6 +174,10 @@ WITNESS = {
     "c15_formatters/HumanFloatCount::fmt": ["human_float"],
     "c15_formatters/HumanCount::fmt": ["human_count"],
     "c15_formatters/FormattedDuration::fmt": ["formatted_duration"],
+    "multi_state/MultiState::draw__F_C03_log": ["c03_clear_overshoot"],
+    "multi_state/MultiState::draw__F_C03_text": ["c03_text_below_zombies"],
+    "multi_state/MultiState::draw__F_C03_skip": ["c03_skip_recount"],
+    "multi_state/MultiState::": ["c03_clear_overshoot", "c03_text_below_zombies", "c03_skip_recount", "io_fail_multi"],
     "bar_draw/ProgressBar::set_tab_width": ["io_fail_bar"],
     "bar_draw/ProgressBar::": ["io_fail_bar"],
     "bar_draw/BarState::": ["io_fail_bar"],
